@@ -338,8 +338,14 @@ def _arith(b, defs, place, depth=0):
     return ("leaf", rv["k"])
 
 
+SPAN_REVIEWED = {
+    ("simple_literal", "start", "+1"): "skips the opening quote (one ASCII byte) of a String / Char token",
+}
+
+
 def rule_u6(F):
-    r = RuleResult("C06.U6", "token spans end on a position computed from lengths: a constant number of bytes added to a position is a reviewed site", floor=2)
+    r = RuleResult("C06.U6", "spans are built from positions computed from lengths: a constant number of bytes in (or added to) a span bound is a reviewed site", floor=4)
+    # (a) token spans leaving the lexer
     for b in F.bodies_in(["src/parser/lexer.rs"]):
         if not b.mir or "::tests::" in b.path:
             continue
@@ -382,12 +388,115 @@ def rule_u6(F):
                 r.bad(b.path, "span end = position + %s" % v, relfile(b.file), st["line"],
                       "the end of a token span is a byte position plus the constant %s: if the character there is longer than that the span ends inside it "
                       "and rendering the diagnostic slices the source mid code point" % v)
+    # (b) every parser::meta::Span value built anywhere in the crate: aggregates and Span::new(file, a..b)
+    for b in F.all_bodies():
+        if not b.mir or "::tests::" in b.path or not b.file.startswith("src/") or b.path.endswith("meta::Span::new") or b.path.endswith("meta::Span::merge"):
+            continue
+        defs = None
+        sites = []
+        for bi, blk in enumerate(b.blocks):
+            for st in blk["stmts"]:
+                if st["k"] == "assign" and st["rv"]["k"] == "agg" and (st["rv"].get("adt") or "").endswith("parser::meta::Span"):
+                    fo = dict(zip(st["rv"].get("fields") or [], st["rv"]["ops"]))
+                    sites.append((st.get("line", 0), {k: fo[k] for k in ("start", "end") if k in fo}))
+            t = blk["term"]
+            if t["k"] == "call" and mir.callee(t).endswith("meta::Span::new") and len(t["args"]) > 1 and mir.is_place_op(t["args"][1]):
+                defs = defs or mir.Defs(b)
+                for d in defs.whole_defs(t["args"][1][1][0]):
+                    if d[2] == "assign" and d[3]["rv"]["k"] == "agg" and len(d[3]["rv"]["ops"]) == 2:
+                        sites.append((t["line"], {"start": d[3]["rv"]["ops"][0], "end": d[3]["rv"]["ops"][1]}))
+        for line, comps in sites:
+            defs = defs or mir.Defs(b)
+            found = []
+            for which, o in comps.items():
+                c = mir.op_const(o)
+                if c is not None:
+                    if c.get("v"):
+                        found.append((which, "=%s" % c.get("v")))
+                    continue
+                if not mir.is_place_op(o):
+                    continue
+                e = _arith(b, defs, o[1])
+
+                def walk2(x, sign="+"):
+                    if x[0] in ("add", "sub"):
+                        for j, y in enumerate(x[1:]):
+                            sg = "-" if (x[0] == "sub" and j == 1) else "+"
+                            if y[0] == "const" and y[1]:
+                                found.append((which, "%s%s" % (sg, y[1])))
+                            walk2(y)
+                    elif x[0] == "const" and x[1] and e is x:
+                        found.append((which, "=%s" % x[1]))
+                walk2(e)
+            fn = hir.last(b.path)
+            r.inst("%s Span #%d" % (fn, len([k for k in r.instances if k.startswith(fn + " Span")])), {"fn": b.path, "line": line, "constant_parts": found})
+            for which, cst in found:
+                if (fn, which, cst) in SPAN_REVIEWED:
+                    continue
+                r.bad(b.path, "Span %s %s" % (which, cst), relfile(b.file), line,
+                      "a span bound is built with the constant %s (%s): unless the bytes it stands for are known to be exactly that long (a reviewed ASCII delimiter) the span can end inside a multi-byte character - or beyond an empty file - "
+                      "and rendering the report panics" % (cst, which))
+    return r
+
+
+def rule_u7(F):
+    """Lowering a `match` must not panic for any arm list the type checker accepts. match_case ends a chain that finishes with a
+    guarded arm in a jump to a block nobody creates; that is only sound for chains that can never be entered, so the default chain
+    (variants without an arm of their own) may only be generated - and the switch may only get a default target - when such a
+    variant exists: the decision has to compare the number of named variants with the number of variants."""
+    r = RuleResult("C06.U7", "match lowering generates the default chain only if some variant has no arm of its own", floor=1)
+    ps = [p for p in F.paths() if p.endswith("::r#match") and "match_expr" in p]
+    if not ps:
+        r.missing("mir::lower::match_expr r#match")
+        return r
+    b = F.body(ps[0])
+    h = b.hir["value"]
+    ld = hir.LocalDefs(b.hir)
+    sw = [c for c in hir.nodes(h, "mcall") if c["m"] == "emit_switch" and len(c["args"]) >= 3]
+    if not sw:
+        r.missing("emit_switch in r#match")
+        return r
+
+    def len_cmp(e):
+        """a comparison of the size of a map/set of discriminants with the size of the variant list"""
+        for c in hir.nodes(e, "bin"):
+            if c.get("op") not in ("<", ">", "<=", ">=", "==", "!="):
+                continue
+            tys = []
+            for x in (c["a"], c["b"]):
+                x = hir.strip(x)
+                if x.get("k") == "mcall" and x["m"] == "len":
+                    tys.append((hir.peel_refs(hir.strip(x["recv"])).get("ty") or ""))
+            if len(tys) == 2 and any("Hash" in t or "BTree" in t for t in tys) and any("Identifier" in t and "TyRef" in t for t in tys):
+                return True
+        return False
+
+    def depends_on_len_cmp(e, depth=0, seen=None):
+        seen = seen if seen is not None else set()
+        if len_cmp(e):
+            return True
+        for n in hir.walk(e):
+            if n.get("k") == "path" and hir.res_local(n) is not None and depth < 6:
+                l = hir.res_local(n)
+                if l in seen:
+                    continue
+                seen.add(l)
+                d = ld.get(l)
+                if d and d[1] is not None and depends_on_len_cmp(d[1], depth + 1, seen):
+                    return True
+        return False
+    ok = depends_on_len_cmp(sw[0]["args"][2])
+    r.inst("switch default target", {"line": sw[0]["line"], "depends_on_named_vs_all_variants": ok})
+    if not ok:
+        r.bad(b.path, "default chain generated unconditionally", relfile(b.file), sw[0]["line"],
+              "the switch gets a default target (and the default chain is generated) whenever a `_` arm exists, even if every variant has an arm of its own: with a guarded `_` arm that chain "
+              "ends in a jump to a block that is never created and dead-code elimination panics (`match o { _ if g => 1, Some(t) => t, None => 3 }`)")
     return r
 
 
 def rules(ctx):
     F = ctx["F"]
-    return [rule_u1(F), rule_u2(F), rule_u3(F), rule_u3b(F), rule_u4(F), rule_u5(F), rule_u6(F)]
+    return [rule_u1(F), rule_u2(F), rule_u3(F), rule_u3b(F), rule_u4(F), rule_u5(F), rule_u6(F), rule_u7(F)]
 
 
 def canary(C):
